@@ -10,13 +10,20 @@ import SpyneModel.Flat
 namespace SpyneModel.Flat
 open SpyneModel
 
-/-- a declared member type: members carry (Python name, sub_name, occurrence attributes, type) -/
-inductive DTy where
-  | prim (p : PK)
-  | obj (cid : Nat) (fields : List (Text × Option Text × Occ × DTy))
+/-- declared attributes of a member besides its occurrence attributes: `sub_name`, `default`, `read_only` -/
+structure MAttr where
+  sub : Option Text := none
+  dflt : Option Leaf := none
+  readOnly : Bool := false
   deriving Repr, Inhabited
 
-abbrev DFld := Text × Option Text × Occ × DTy
+/-- a declared member type: members carry (Python name, attributes, occurrence attributes, type) -/
+inductive DTy where
+  | prim (p : PK)
+  | obj (cid : Nat) (fields : List (Text × MAttr × Occ × DTy))
+  deriving Repr, Inhabited
+
+abbrev DFld := Text × MAttr × Occ × DTy
 
 /-- the key name of member `n`; `cont = none`: an argument of the request class,
     `cont = some c`: a member of an object held by a member whose `sub_name` is `c` -/
@@ -36,7 +43,7 @@ def keyedTy (F : Facts03) (own : Option Text) : DTy → Ty
   | .obj cid fs => .obj cid (keyedFields F (some own) fs)
 def keyedFields (F : Facts03) (cont : Option (Option Text)) : List DFld → List Fld
   | [] => []
-  | (n, sub, occ, t) :: r => (keyName F cont n sub, occ, keyedTy F sub t) :: keyedFields F cont r
+  | (n, a, occ, t) :: r => (keyName F cont n a.sub, occ, keyedTy F a.sub t) :: keyedFields F cont r
 end
 
 mutual
@@ -46,7 +53,34 @@ def ownTy : DTy → Ty
   | .obj cid fs => .obj cid (ownFields fs)
 def ownFields : List DFld → List Fld
   | [] => []
-  | (n, sub, occ, t) :: r => (sub.getD n, occ, ownTy t) :: ownFields r
+  | (n, a, occ, t) :: r => (a.sub.getD n, occ, ownTy t) :: ownFields r
+end
+
+/-! ## what the user function sees of the instance: defaults and read-only members
+
+`get_deserialization_instance` runs `ComplexModelBase.__init__`: a member with a `default` starts with it (a key of the
+request overwrites it), and `_safe_set` refuses to assign a `read_only` member. For scalar primitive members this is a
+post-processing of the object graph: a member no key assigned (`Node.none`) shows its default; a read-only member
+shows its default (or None) whatever the request says. (Measured on the real pipeline by T2 `http.get.decl`.) -/
+
+def dfltNode (a : MAttr) : Node := match a.dflt with | some v => .leaf v | none => .none
+
+mutual
+def finishNode : DTy → Node → Node
+  | .obj _ fs, .obj attrs => .obj (finishAttrs fs attrs)
+  | t, .arr m items => .arr m (finishItems t items)
+  | _, n => n
+/-- members in declaration order (the order of the instance's attributes) -/
+def finishAttrs : List DFld → List (Text × Node) → List (Text × Node)
+  | (_, a, _, t) :: fs, (k, v) :: r =>
+    (k, if a.readOnly then dfltNode a else
+          match v with
+          | .none => dfltNode a
+          | v => finishNode t v) :: finishAttrs fs r
+  | _, attrs => attrs
+def finishItems : DTy → List Node → List Node
+  | _, [] => []
+  | t, v :: r => finishNode t v :: finishItems t r
 end
 
 end SpyneModel.Flat
